@@ -178,12 +178,18 @@ fn marker_names(op: &Op) -> Vec<String> {
 fn text_of(op: &Op) -> String {
     let n = op.version;
     let mut s = format!("const V{n}: int = {n}{}\n", " + 0".repeat(n as usize));
-    s.push_str("from dep import helper\n");
+    // import order decides the order in which the server reports on the dependencies (last import first): with one
+    // disk dependency the open documents are imported first (reported after `dep`), with two they sit in between
     if op.deps >= 2 {
-        s.push_str("from dep2 import helper2\n");
+        s.push_str("from dep import helper\n");
     }
     for j in &op.imports {
         s.push_str(&format!("from doc_{0} import helper_{0}\n", NAMES[*j]));
+    }
+    if op.deps >= 2 {
+        s.push_str("from dep2 import helper2\n");
+    } else {
+        s.push_str("from dep import helper\n");
     }
     s.push('\n');
     for m in marker_names(op) {
@@ -1094,6 +1100,22 @@ fn judge(case: &Case, run: &Run) -> Vec<Fail> {
 /// higher version, or follows the publish of a close that was sent after it. In this server the result of an
 /// analysis is stored and its publish enqueued in the same poll, so this observes "a newer notification took effect
 /// while the analysis of an older one was still suspended".
+/// Lower bound on the number of versioned reports about imported documents that were sent by an importer's analysis:
+/// for each imported document and version, versioned publishes beyond the first.
+fn dependency_reports(case: &Case, run: &Run) -> u64 {
+    let mut n = 0u64;
+    for u in (0..case.n_uris).filter(|u| case.imported(*u)) {
+        let mut per: BTreeMap<i64, u64> = BTreeMap::new();
+        for m in run.msgs.iter().filter(|m| m.method == "textDocument/publishDiagnostics" && m.uri == Some(u)) {
+            if let Some(v) = m.version {
+                *per.entry(v).or_insert(0) += 1;
+            }
+        }
+        n += per.values().map(|c| c.saturating_sub(1)).sum::<u64>();
+    }
+    n
+}
+
 fn publish_inversions(case: &Case, run: &Run) -> u32 {
     let mut n = 0;
     for u in 0..case.n_uris {
@@ -1211,12 +1233,14 @@ fn main() {
          completed while the handler of an OLDER notification for the same URI was still in flight (suspended at a lock or \
          at a publish), i.e. a newer version or a close overtook an older analysis (measured by the harness at each \
          completion), or the publishes for a URI left the server out of history order (the newer notification took effect \
-         while the older handler was suspended, although the older one returned first). Distinct = hash of (history, \
-         effective schedule).",
+         while the older handler was suspended, although the older one returned first), or a handler for a document \
+         completed while an older handler of a document that imports it (transitively) was still in flight. Distinct = \
+         hash of (history, effective schedule).",
     );
     ev.assume("handlers are first polled in arrival order (futures::stream::buffer_unordered pushes into a FIFO ready queue); the `free` executor explores every later poll order, the `serve loop` executor only wake order (FIFO) with arbitrary drain/arrival timing");
     ev.assume("at most 4 handlers in flight (tower-lsp Server default max_concurrency)");
-    ev.assume("versions increase strictly along the history (also across close/reopen); documents do not import each other");
+    ev.assume("versions increase strictly along the history (also across close/reopen)");
+    ev.assume("documents may import each other (acyclic, up to 3 documents); a report about version v of a document is judged whoever sent it: it must be a report computable from text v — the full report (exactly v's markers), or, for a document that another one imports, the parse-level report an importer's analysis sends (empty list if v parses, lex/parse errors if not). That an importer's empty report hides the dependency's own type errors is incompleteness, not staleness, and is not judged");
     ev.assume("a text with a syntax/lexical error has no answerable declarations: for such a latest version hover/definition may answer nothing, but not from an older text");
 
     let dir = vcore::verif_root().join("work").join(format!("c18-{}-{}-{}", args.tier.name(), args.seed, std::process::id()));
@@ -1321,7 +1345,7 @@ fn run_main(args: &Args, out: &mut Outcome, ev: &mut Evidence, dir: &Path) -> i3
         for l in &run.trace {
             println!("  {l}");
         }
-        let nontrivial = run.overtakes > 0 || publish_inversions(&case, &run) > 0;
+        let nontrivial = run.overtakes > 0 || run.dep_overtakes > 0 || publish_inversions(&case, &run) > 0;
         ev.case(if nontrivial { Some(util::hash_of(&(&case.ops, &run.effective))) } else { None });
         ev.sample(case_to_json(&case));
         if run.hung || run.setup_error.is_some() {
@@ -1372,7 +1396,7 @@ fn run_main(args: &Args, out: &mut Outcome, ev: &mut Evidence, dir: &Path) -> i3
                 out.inconclusive(&format!("regression case {} did not reach quiescence", f.display()));
                 continue;
             }
-            let nontrivial = run.overtakes > 0 || publish_inversions(&case, &run) > 0;
+            let nontrivial = run.overtakes > 0 || run.dep_overtakes > 0 || publish_inversions(&case, &run) > 0;
             ev.case(if nontrivial { Some(util::hash_of(&(&case.ops, &run.effective))) } else { None });
             ev.class("regression_canonical_input");
             for fl in judge(&case, &run) {
@@ -1406,6 +1430,8 @@ fn run_main(args: &Args, out: &mut Outcome, ev: &mut Evidence, dir: &Path) -> i3
     let mut total_polls = 0u64;
     let mut total_msgs = 0u64;
     let mut sig_by_exec: BTreeMap<String, u64> = BTreeMap::new();
+    let mut dep_overtake_cases = 0u64;
+    let mut dep_versioned_publishes = 0u64;
     while done < total {
         let n = chunk.min(total - done);
         let mut trees = vcore::gen::batch(&strat, &mut runner, n);
@@ -1438,7 +1464,12 @@ fn run_main(args: &Args, out: &mut Outcome, ev: &mut Evidence, dir: &Path) -> i3
                 continue;
             }
             let inversions = publish_inversions(case, run);
-            let nontrivial = run.overtakes > 0 || inversions > 0;
+            let nontrivial = run.overtakes > 0 || inversions > 0 || run.dep_overtakes > 0;
+            if run.dep_overtakes > 0 {
+                ev.class("schedule_dependency_overtakes_importer");
+                dep_overtake_cases += 1;
+            }
+            dep_versioned_publishes += dependency_reports(case, run);
             ev.case(if nontrivial { Some(util::hash_of(&(&case.ops, &run.effective))) } else { None });
             for c in classes_of(case) {
                 ev.class(c);
@@ -1535,6 +1566,9 @@ fn run_main(args: &Args, out: &mut Outcome, ev: &mut Evidence, dir: &Path) -> i3
         done += n;
     }
     ev.set("nontrivial_cases", json!(overtake_cases));
+    ev.set("cases_where_dependency_handler_overtook_importer", json!(dep_overtake_cases));
+    // versioned publishes for an imported document beyond one per own analysis = reports sent by importers' analyses
+    ev.set("versioned_reports_about_open_dependencies_by_importers_lower_bound", json!(dep_versioned_publishes));
     ev.set(
         "nontrivial_fraction",
         json!(if ev.evaluations > 0 { overtake_cases as f64 / ev.evaluations as f64 } else { 0.0 }),
